@@ -68,6 +68,11 @@ static int write_history (const Fmt *f, int ch, int mode, int meta, const long *
 		mid_on = 0 ;
 		if (w != parts [p]) { INLIB (sf_close (sf)) ; return -2 ; }
 		n += parts [p] ;
+		if (meta >= 2 && (p == 0 || p == 2))
+		{	/* the string table changes while audio is already in the file: the next header update has a header of another length to write */
+			static const char *repl [2][2] = { { "t", "" }, { "a replacement title which is a good deal longer than the one set first", "crash point title" } } ;
+			INLIB (sf_set_string (sf, SF_STR_TITLE, repl [meta - 2][p / 2])) ;
+			}
 		if (mode == 1 || mode >= 3)
 		{	/* modes 3 / 4: the write pointer is parked at frame 0 / in the middle while the header is updated, and moved back to the end afterwards */
 			sf_count_t sk = 0 ;
@@ -200,7 +205,7 @@ void harness_run (void)
 		for (int ch = 1 ; ch <= 2 ; ch++)
 		{	if (! rt_accepts (f, ch, fmt_default_rate (f))) continue ;
 			for (int mode = 1 ; mode <= 4 ; mode++)
-				for (int meta = 0 ; meta < 2 ; meta++)
+				for (int meta = 0 ; meta < 4 ; meta++)	/* 2 / 3: a string set before the audio is replaced by a shorter / longer one between the writes */
 				{	/* parking the write pointer elsewhere during the update is explored where write-mode seeks are defined: sample-granular encodings */
 					if (mode >= 3 && (! f->gran || sub == SF_FORMAT_DPCM_8 || sub == SF_FORMAT_DPCM_16)) continue ;
 					if (vl_case ("C11 fmt=%s ch=%d mode=%s meta=%d", f->name, ch, mode == 1 ? "update-now" : mode == 2 ? "auto" : mode == 3 ? "update-now-at-frame0" : "update-now-at-middle", meta))
